@@ -212,7 +212,18 @@ class Check(PropertyCheck):
                   "the flush loop, stream_window_updated), buffered_bytes_conserved_connection (connection_window_updated: the "
                   "round robin over all buffers, any number of rounds — so every entry point of BufferedH2Connection is "
                   "covered — for streams satisfying StreamOk), stream_ok_invariant (StreamOk holds initially and is kept by "
-                  "send_data under the callers' discipline), trailers_after_data; demux_own_stream / route_own_stream "
+                  "send_data under the callers' discipline), trailers_after_data; the callers' discipline itself is DERIVED: "
+                  "stream_ok_reachable (StreamOk for every stream in every state reachable under Reach2 = Good + the "
+                  "per-stream order Good2: data and trailers only before trailers/end/error, one end of message), "
+                  "can_submit_derived (CanSubmit holds wherever Http2Client submits data or ends a stream; the "
+                  "is_open_for_us guard is part of the model), buffered_bytes_conserved_reachable (the conservation "
+                  "theorems for the flush entry points without the StreamOk hypothesis), through received segments with "
+                  "RST_STREAM / GOAWAY / SETTINGS / WINDOW_UPDATE, queueing and the resume loop (Lemmas/C05_Sub.lean); and "
+                  "the order Good2 + head-first is derived from the HttpStream model of C03: "
+                  "httpstream_hands_over_in_order (in EVERY run of C03's model the SendHttp commands addressed to the "
+                  "server are head first and once, data only while streaming, trailers only right before the end, one "
+                  "end, an error only after the head — a new invariant J over C03's transitions, Lemmas/C05_C03*.lean), "
+                  "good2_from_httpstream; demux_own_stream / route_own_stream "
                   "(HttpLayer.streams after any make_stream / DropStream sequence hands an event to the HttpStream created for "
                   "its id, or to nobody). The model is tied to the code by replaying, in "
                   "lock step, the events the real Http2Client received in end-to-end runs of interleaved, arbitrarily "
@@ -224,11 +235,16 @@ class Check(PropertyCheck):
                   "limit it announced, which some scripts never raise — has a free slot.")
     level_note = ("trusted / not proved: hyper-h2/hpack (framing, stream state machine, flow-control accounting) — the model takes "
                   "the EVENTS h2 reports as input and abstracts its state to window + open flags per stream; that abstraction "
-                  "is validated by the lock-step comparison only. Hypothesis of the theorems (Good): HttpStream hands over, "
-                  "per stream, the request head first and exactly once (C03). The conservation theorems for the flush entry points are stated for well-kept "
-                  "streams (StreamOk: nothing buffered for a stream that cannot send any more, END_STREAM only on the last "
-                  "buffered chunk); StreamOk is proved to be kept by send_data when the caller respects is_open_for_us and "
-                  "submits no data after the end of a message (CanSubmit) — that HttpStream does so is assumed (C03), and for a "
+                  "is validated by the lock-step comparison only. Hypothesis of the theorems (Good, and Good2 for the "
+                  "buffer theorems): HttpStream hands over, per stream, the request head first and exactly once, then data / "
+                  "at most one set of trailers / one end of message in this order, or an error. That order is no longer "
+                  "assumed of HttpStream but proved of its C03 model for every run (httpstream_hands_over_in_order); what "
+                  "remains unproved is the glue between the two models: that the events of ONE client stream reach "
+                  "Http2Client in the order HttpStream emitted them (HttpLayer.event_to_child is a synchronous loop; "
+                  "exercised by the lock-step runs), and C03's own correspondence with the code (checked by C03). StreamOk "
+                  "(nothing buffered for a stream that cannot send any more, END_STREAM only on the last buffered chunk) and "
+                  "CanSubmit are now consequences (stream_ok_reachable, can_submit_derived); the older theorems that take "
+                  "them as hypotheses are kept. For a "
                   "stream the peer has reset the buffered bytes are (intentionally) dropped. Http2Server passes events up under "
                   "the id hyper-h2 reports (identity); which frame belongs to which stream is hyper-h2's demultiplexing "
                   "(trusted, exercised by the peer oracle); the routing by id in HttpLayer.streams is demux_own_stream. Its send "
